@@ -45,7 +45,7 @@ KERNELS = [
     dict(kernel="sigmoid", gamma=0.01, coef0=0),
     dict(kernel="cosine"),
 ]
-REGS = ["none", "krr", "krr-fitted", "pre+W", "pre-W"]
+REGS = ["none", "krr", "krr-fitted", "pre+W", "pre-W", "pre-inconsistent"]
 MIXINGS = [0.2, 0.5, 1.0]
 
 
@@ -98,7 +98,7 @@ def cases(group):
                         for k in (1, 2, 3):
                             if k >= n:
                                 continue
-                            if group["tier"] == "quick" and reg in ("pre+W", "pre-W", "krr-fitted") and (k != 2 or mixing != 0.5):
+                            if group["tier"] == "quick" and reg in ("pre+W", "pre-W", "krr-fitted", "pre-inconsistent") and (k != 2 or mixing != 0.5):
                                 continue
                             yield dict(X=X, Y=Y, kp=kp, center=center, reg=reg, mixing=mixing, k=k)
 
@@ -152,6 +152,10 @@ def _make(kp, center, reg, mixing, k, X, Y, alpha=1e-3):
         Wd = np.linalg.solve(K + alpha * np.eye(len(K)), np.asarray(Y, float).reshape(len(K), -1))
         fit_Y = K @ Wd
         fit_W = Wd if reg == "pre+W" else None
+        if reg == "pre-inconsistent":
+            # regressed targets from an external model: not of the form K W for the weights that are passed
+            fit_Y = np.asarray(Y, float).reshape(len(K), -1) * 0.8 + 0.1 * np.sin(np.arange(len(K)))[:, None]
+            fit_W = Wd
         est = KernelPCovR(regressor="precomputed", **kw)
     return est, fit_Y, fit_W
 
@@ -273,7 +277,7 @@ def check(case):
         return r
 
     # ---- (0) every kernel: T T^T is the rank-k spectral truncation of the reference K~
-    if gap_ok and reg != "krr-fitted":
+    if gap_ok and reg not in ("krr-fitted", "pre-inconsistent"):
         w_, V_ = np.linalg.eigh((Kt + Kt.T) / 2)
         V_, w_ = V_[:, ::-1][:, :k], w_[::-1][:k]
         Kk = (V_ * w_) @ V_.T
@@ -374,7 +378,7 @@ def check(case):
 def _dual_weights(est, reg, K, Yfit, W):
     """Dual regression weights of the regressor spec, computed independently (kernel ridge
     closed form); used only for the reference modified Gram matrix of the gap rule."""
-    if reg == "pre+W":
+    if reg in ("pre+W", "pre-inconsistent"):
         return W
     if reg == "pre-W":
         return np.linalg.lstsq(K, Yfit, rcond=1e-12)[0]
